@@ -37,6 +37,7 @@ SERVER_ROWS = ["std-ctx", "std-ctx-clientcert", "pyo-ctx", "pyo-ctx-clientcert",
                "start-require-client-cert", "start-mismatched-key", "start-mismatched-key-rules", "start-malformed-key",
                "start-auto-anyhost", "start-supplied-anyhost", "start-auto-rules-anyhost",
                "start-auto-port-busy", "start-supplied-port-busy", "start-supplied-rules-port-busy",
+               "start-supplied-rules-emptylist", "start-auto-rules-emptylist", "start-supplied-rules-allowlist", "start-auto-rules-optional",
                "std-ctx-weak", "pyo-ctx-weak", "pyo-ctx-clientcert-weak", "start-supplied-weak", "start-supplied-weak-rules"]
 UNUSABLE = ("mismatched", "malformed", "weak", "port-busy")  # rows whose certificate/key pair the TLS library rejects as configured
 GEMINI_RESP = re.compile(rb"(^|\n)[1-6][0-9] [^\r\n]*\r\n")
@@ -55,6 +56,20 @@ def _spy_factory(counter):
         return GeminiResponse(status=20, meta="text/gemini", body="SERVED")
 
     return lambda: GeminiServerProtocol(handler, None)
+
+
+def _rules_for(row):
+    from nauyaca.server.middleware import CertificateAuthPathRule
+
+    if "rules-emptylist" in row:
+        # a list that admits nobody, and no rule that demands a certificate as such
+        return [CertificateAuthPathRule(prefix="/members/", allowed_fingerprints=set())]
+    if "rules-allowlist" in row:
+        return [CertificateAuthPathRule(prefix="/members/", allowed_fingerprints={certs.get("ec-a").fingerprint.split(":", 1)[1]}),
+                CertificateAuthPathRule(prefix="/empty/", allowed_fingerprints=set())]
+    if "rules-optional" in row:
+        return [CertificateAuthPathRule(prefix="/open/", require_cert=False)]
+    return [CertificateAuthPathRule(prefix="/admin/", require_cert=True)]
 
 
 async def _build_row(loop, row, counter):
@@ -118,7 +133,7 @@ async def _build_row(loop, row, counter):
         cfg.access_control_deny_list = ["192.0.2.7"]
         kw["access_control_config"] = cfg.get_access_control_config()
     if row.endswith("rules") or "rules-" in row:
-        kw["certificate_auth_config"] = CertificateAuthConfig(path_rules=[CertificateAuthPathRule(prefix="/admin/", require_cert=True)])
+        kw["certificate_auth_config"] = CertificateAuthConfig(path_rules=_rules_for(row))
     old = tempfile.tempdir
     tempfile.tempdir = scratch.subdir("c20-tmp")
     try:
@@ -373,7 +388,8 @@ def plaintext_case(draw):
     n = len(data)
     cuts = sorted(set(draw(st.lists(st.integers(1, max(1, n - 1)), max_size=3)))) if n > 1 else []
     return {"data": b2s(data), "cuts": cuts, "backend": draw(st.sampled_from(["stdlib", "pyopenssl", "start-supplied-acl-denied",
-                                                                              "start-supplied-rules-acl-denied", "start-auto-rules"]))}
+                                                                              "start-supplied-rules-acl-denied", "start-auto-rules",
+                                                                              "start-supplied-rules-emptylist", "start-auto-rules-allowlist"]))}
 
 
 def run_plain(case: dict):
@@ -445,7 +461,7 @@ def _live_port(row: str) -> int:
         cfg.access_control_deny_list = ["192.0.2.7"]
         kw["access_control_config"] = cfg.get_access_control_config()
     if row.endswith("rules") or "rules-" in row:
-        kw["certificate_auth_config"] = CertificateAuthConfig(path_rules=[CertificateAuthPathRule(prefix="/admin/", require_cert=True)])
+        kw["certificate_auth_config"] = CertificateAuthConfig(path_rules=_rules_for(row))
     old = tempfile.tempdir
     tempfile.tempdir = scratch.subdir("c20-live-tmp")
 
